@@ -328,6 +328,11 @@ impl Coll for ImportsByName {
         // the same field name appears under two module names (every other import goes to "alt")
         let ty = m.types.add(&[], &[]);
         let module = if self.ids.len() % 2 == 0 { "env" } else { "alt" };
+        // import names need not be unique across kinds: every third function import is preceded by a global import of
+        // the same (module, field) pair, which the by-name lookups of *function* imports must step over
+        if self.ids.len() % 3 == 1 {
+            m.add_import_global(module, &format!("i{}", v), ValType::I32, false, false);
+        }
         let id = m.add_import_func(module, &format!("i{}", v), ty).1;
         self.ids.push(id);
         id.index()
@@ -345,10 +350,12 @@ impl Coll for ImportsByName {
         quiet(|| m.imports.get(id).name[1..].parse().unwrap_or(9999))
     }
     fn iter(&self, m: &Module) -> Vec<(usize, u32)> {
-        m.imports.iter().map(|e| (e.id().index(), e.name[1..].parse().unwrap_or(9999))).collect()
+        let f = |e: &Import| matches!(e.kind, ImportKind::Function(_));
+        m.imports.iter().filter(|e| f(e)).map(|e| (e.id().index(), e.name[1..].parse().unwrap_or(9999))).collect()
     }
     fn iter_mut(&self, m: &mut Module) -> Option<Vec<(usize, u32)>> {
-        Some(m.imports.iter_mut().map(|e| (e.id().index(), e.name[1..].parse().unwrap_or(9999))).collect())
+        let f = |e: &Import| matches!(e.kind, ImportKind::Function(_));
+        Some(m.imports.iter_mut().filter(|e| f(e)).map(|e| (e.id().index(), e.name[1..].parse().unwrap_or(9999))).collect())
     }
     fn find(&self, m: &Module, v: u32) -> Option<i64> {
         for md in ["env", "alt"] {
